@@ -229,6 +229,11 @@ class FitYamlReader(YamlReaderMixin, FitDReprBase):
             _fit_object._update_parameter_formatters()
 
         if _read_parametric_model is not None:
+            # keep what the fit sets up on the parametric model it creates itself
+            _read_parametric_model._on_error_change_callback = _fit_object._param_model._on_error_change_callback
+            if _fit_type == "histogram" and _read_parametric_model.density:
+                # the model prediction is the density integral times the number of entries
+                _read_parametric_model._error_reference_scale = _fit_object._data_container.n_entries
             _fit_object._param_model = _read_parametric_model
 
         _constraint_yaml_list = yaml_doc.pop("parameter_constraints", None)
